@@ -170,6 +170,7 @@ def execute(sc, ctx):
             args = [os.path.join(root, (inv["files"] if kind == "f" else inv["renames"])[i]) for kind, i in order
                     if i < len(inv["files"] if kind == "f" else inv["renames"])]
             incs = [os.path.join(root, d) for d in inv["includes"]]
+            simproc.next_process()  # every invocation is a tool run of its own (own hash seed: string-set iteration order)
             try:
                 fl, g, l, ign, cache, absidf = cdo._prepare_deprecated_options(incs, [], list(args))
             except Exception as e:
@@ -224,6 +225,7 @@ def execute(sc, ctx):
             for fn in e["defaults"]:
                 rel = os.path.join(e["dir"], fn)
                 full = os.path.join(root, rel)
+                simproc.next_process()
                 try:
                     fl, g, l, ign, cache, absidf = cdo._prepare_deprecated_options([], [], [full])
                     v = cdo.check_deprecated_options(full, g, l, ign, cache, absidf)
